@@ -219,12 +219,13 @@ prop("C06",
      )
 
 prop("C03",
-     modules=["Emu2a.Props.C03"],
-     theorems=["Emu2a.C03.fromRadix_bound", "Emu2a.C03.validate_spec", "Emu2a.C03.parse_total"],
+     modules=["Emu2a.Props.C03", "Emu2a.Props.C03x.Family"],
+     theorems=["Emu2a.C03.fromRadix_bound", "Emu2a.C03.validate_spec", "Emu2a.C03.parse_total", "Emu2a.C03.reject_family",
+               "Emu2a.C03.accept_family", "Emu2a.C03.label_limit"],
      harness="c03",
      shrink=False,
      exhaustive={"quick": False, "thorough": False},
-     level_text="PARTIAL. The model of the parser is a PEG interpreter over the grammar REGENERATED from mrasm.pest on every run (tools/gen_grammar.py) plus hand-written AST builders in which every unwrap/expect/unreachable of implementation/mod.rs is an explicit `panic <site>` outcome. Lean theorems: every numeric value a builder returns is below the limit of its type (fromRadix_bound), label validation rejects exactly >40 definitions / a reference without a case-insensitive definition (validate_spec), the parser model is total (parse_total). NOT a theorem: that no token tree of the grammar reaches a panic outcome in a builder, and language equality with a description independent of the grammar file; both are decided only up to the correspondence: real pest parser vs the model on generated programs whose AST is known by construction (spec.parse: the parser must return exactly the AST the text was rendered from), single-token mutations, directed accept/reject boundaries (255/256, 65535/65536, 8/9 binary digits, 40/41 labels, header) and raw byte/Unicode strings under catch_unwind (spec.noparsepanic)",
+     level_text="PARTIAL. The model of the parser is a PEG interpreter over the grammar REGENERATED from mrasm.pest on every run (tools/gen_grammar.py) plus hand-written AST builders in which every unwrap/expect/unreachable of implementation/mod.rs is an explicit `panic <site>` outcome. Lean theorems: every numeric value a builder returns is below the limit of its type (fromRadix_bound), label validation rejects exactly >40 definitions / a reference without a case-insensitive definition (validate_spec), the parser model is total (parse_total); reject_family / accept_family / label_limit: kernel evaluation of the model parser on 33 boundary rejects (256, 0x100, nine significant binary digits, 65536, header variants, register-like labels, separators, undefined label), 11 accepts right below the boundaries with their ASTs, and 40 / 41 label definitions (tests, labelled as such: an edit of mrasm.pest or of a builder that moves a boundary breaks them). NOT a theorem: that no token tree of the grammar reaches a panic outcome in a builder, and language equality with a description independent of the grammar file; both are decided only up to the correspondence: real pest parser vs the model on generated programs whose AST is known by construction (spec.parse: the parser must return exactly the AST the text was rendered from), single-token mutations, directed accept/reject boundaries (255/256, 65535/65536, 8/9 binary digits, 40/41 labels, header) and raw byte/Unicode strings under catch_unwind (spec.noparsepanic)",
      technique="Lean 4 PEG-interpreter model over the grammar translated from mrasm.pest + theorems on number/label validation + differential search against the real pest parser with construction-known ASTs",
      rule="generated (AST, text) pairs over every instruction form, radix, leading zeros, case and spacing variants (`parse` = real result vs model result, `spec.parse` = real result vs the AST the text was written from), two single-token mutations of each, 30 directed rejects and 8 directed boundary accepts, raw strings over an mrasm-biased and a Unicode alphabet (`spec.noparsepanic`); distinct = distinct texts",
      explanation="a difference on a `spec.` line is a concrete input on which the real parser returns the wrong program, accepts/rejects wrongly, or panics",
